@@ -36,6 +36,14 @@ def find_def(tree, name, cls=None):
 
 
 def segment(src, node):
+    """Source text of a node; a function's docstring is dropped (it is not translated and its
+    section titles such as `Parameters` would only confuse a textual audit of the .v files)."""
+    if isinstance(node, ast.FunctionDef):
+        import copy
+        n = copy.deepcopy(node)
+        n.body = strip_doc(n.body) or [ast.Pass()]
+        n.decorator_list = []
+        return ast.unparse(n)
     return ast.get_source_segment(src, node)
 
 
